@@ -131,6 +131,8 @@ def values_for(e: tuple, depth: int = 0) -> List[Any]:
     if R.is_port(e):
         return list(TUPLE_VALUES if len(e) > 5 and e[5] == 'tuples' else PORT_VALUES)
     out: List[Any] = [ABSENT]
+    if depth:
+        out += [('raw', 0), ('raw', ''), ('raw', 1)]  # something that is no mapping where a namespace is declared
     names = [n for n, _ in e[5]]
     per_entry = [values_for(sub, depth + 1) for _, sub in e[5]]
     for combo in itertools.product(*per_entry):
@@ -143,6 +145,8 @@ def values_for(e: tuple, depth: int = 0) -> List[Any]:
 def to_python(value: Any) -> Any:
     if value == () or (isinstance(value, tuple) and value and isinstance(value[0], int)):
         return value  # a tuple that is meant as a value
+    if isinstance(value, tuple) and value and value[0] == 'raw':
+        return value[1]
     if isinstance(value, tuple) and value and value[0] == 'map':
         return {k: to_python(v) for k, v in value[1]}
     if isinstance(value, tuple):  # nested dynamic mapping given as tuple of pairs
@@ -455,7 +459,7 @@ def run_check(tier: str, seed: int, workers: Any) -> Dict[str, Any]:
         'exhaustive': True,
     }
     return {'violations': violations, 'coverage': coverage, 'errors': [], 'level': 'model_checking',
-            'assumptions': ['outside the alphabet (statement silent): non-mapping values for a namespace, None as a value, '
+            'assumptions': ['outside the alphabet (statement silent): None as a value, '
                             'immutable mappings at the top level (the constructor is annotated with dict), '
                             'one-argument validators, invalid static defaults of ports',
                             'presence of empty mappings for declared namespaces is not judged',
